@@ -98,7 +98,7 @@ class MessageManager(interfaces.TokenInterface, interfaces.MessageManager):
         sublayers of CoAP"""
 
         self.log.debug("Incoming message %r", message)
-        if message.code.is_request():
+        if message.code.is_request() and message.mtype in (CON, NON):
             # Responses don't get deduplication because they "are idempotent or
             # can be handled in an idempotent fashion" (RFC 7252 Section 4.5).
             # This means that a separate response may get a RST when it is
@@ -113,7 +113,11 @@ class MessageManager(interfaces.TokenInterface, interfaces.MessageManager):
             if self._deduplicate_message(message) is True:
                 return
 
-        if message.mtype in (ACK, RST):
+        if (message.mtype in (ACK, RST) and message.code is EMPTY) or (
+            message.mtype is ACK and message.code.is_response()
+        ):
+            # Any other code on an ACK or RST does not fit the type; such
+            # messages are ignored below and must not end an exchange either.
             self._remove_exchange(message)
 
         if message.code is EMPTY and message.mtype is CON:
